@@ -2,6 +2,7 @@
 // str(), conversion to std::string, operator<<) and nitro::except::raise / exception::what().
 //   fmt <format-hex> <op>*      op  = p:<arg> | a:<arg>,<arg>,... | a:.
 //   os <width> <fill-hex> <l|r|i> <format-hex> <op>*         operator<< into a stream with pending width/fill/adjustment
+//   rel <scenario> <format-hex> <other-format-hex> <op>* / <op>*     copy / move / relocation of the formatter object between the two groups
 //   seq <format-hex> <op>* / <format-hex> <op>* / ...        several formatters, one after the other
 //   exc <arg>+
 //   arg = s<hex> | s- | n<hex> | r<hex> | l<hex> | c<hex byte> | i<dec> | d<dec> | b0 b1 | f<dec> | h<dec> | x<dec> | w<dec> | t0 t1 | m<manipulator>   (see ocaml/fmt_driver.ml)
@@ -256,6 +257,110 @@ void settle()
         % std::setprecision(6) % std::setfill(' ') % std::setw(0);
 }
 
+// ---- relocation of the formatter OBJECT (rel cases) ----
+std::string short_obs(const F& f)
+{
+    std::string r = observe([&] { return f.str(); });
+    return r == "RAISE" ? std::string("R") : r.substr(2);
+}
+// returned by value from a function that chooses between two locals (no copy elision possible: the result is
+// move-constructed, both locals are destroyed)
+F pick(bool first, const std::string& a, const std::string& b, const std::vector<Op>& pre, bool& ok)
+{
+    F x = nitro::format(a);
+    F y = nitro::format(b);
+    ok = apply_ops(x, pre, false);
+    y % std::string("old");
+    if (first) return x;
+    return y;
+}
+// scn: which relocation; fmt with the arguments `pre` is the source, `post` goes to the target afterwards.
+// Observation "M <target> <source or _>".
+std::string run_rel(const std::string& scn, const std::string& fmt, const std::string& other, const std::vector<Op>& pre,
+                    const std::vector<Op>& post)
+{
+    std::string src = "_";
+    auto finish = [&](F& g) -> std::string {
+        if (!apply_ops(g, post, false)) return "BADCASE";
+        return "M " + short_obs(g) + " " + src;
+    };
+    if (scn == "mc" || scn == "mcr")
+    {
+        F f = nitro::format(fmt);
+        if (!apply_ops(f, pre, false)) return "BADCASE";
+        F g(std::move(f));
+        if (scn == "mcr") { f = nitro::format(other); f % std::string("old"); } // the moved-from source is reused
+        return finish(g);
+    }
+    if (scn == "mcd" || scn == "ccd")
+    {
+        F* pf = new F(nitro::format(fmt));
+        if (!apply_ops(*pf, pre, false)) { delete pf; return "BADCASE"; }
+        F g = scn == "mcd" ? F(std::move(*pf)) : F(*pf);
+        delete pf; // the source is gone before the target is used
+        return finish(g);
+    }
+    if (scn == "ma")
+    {
+        F f = nitro::format(fmt);
+        if (!apply_ops(f, pre, false)) return "BADCASE";
+        F g = nitro::format(other);
+        g % std::string("old");
+        g = std::move(f);
+        f = nitro::format(other);
+        return finish(g);
+    }
+    if (scn == "mad" || scn == "cad")
+    {
+        F* pf = new F(nitro::format(fmt));
+        if (!apply_ops(*pf, pre, false)) { delete pf; return "BADCASE"; }
+        F g = nitro::format(other);
+        g % std::string("old");
+        if (scn == "mad") g = std::move(*pf);
+        else g = *pf;
+        delete pf;
+        return finish(g);
+    }
+    if (scn == "cc" || scn == "ca")
+    {
+        F f = nitro::format(fmt);
+        if (!apply_ops(f, pre, false)) return "BADCASE";
+        F g = scn == "cc" ? F(f) : nitro::format(other);
+        if (scn == "ca") { g % std::string("old"); g = f; }
+        if (!apply_ops(g, post, false)) return "BADCASE";
+        src = short_obs(f); // the source keeps its own value, arguments given to the copy do not reach it
+        return "M " + short_obs(g) + " " + src;
+    }
+    if (scn == "vec")
+    {
+        std::vector<F> v;
+        v.push_back(nitro::format(fmt)); // a temporary moved into the vector
+        if (!apply_ops(v.back(), pre, false)) return "BADCASE";
+        for (int i = 0; i < 9; i++) v.push_back(nitro::format(other)); // growth: the elements are relocated
+        v.erase(v.begin() + 1);
+        return finish(v.front());
+    }
+    if (scn == "ret")
+    {
+        bool ok = true;
+        F g = pick(true, fmt, other, pre, ok);
+        if (!ok) return "BADCASE";
+        return finish(g);
+    }
+    if (scn == "sw")
+    {
+        F f = nitro::format(fmt);
+        if (!apply_ops(f, pre, false)) return "BADCASE";
+        F g = nitro::format(other);
+        g % std::string("old");
+        std::swap(f, g); // move construction and two move assignments
+        if (!apply_ops(g, post, false)) return "BADCASE";
+        src = short_obs(f);
+        return "M " + short_obs(g) + " " + src;
+    }
+    return "BADCASE";
+}
+
 static std::string run_case_inner(const std::vector<std::string>& w);
 static std::string run_case(const std::vector<std::string>& w)
 {
@@ -326,6 +431,16 @@ static std::string run_case_inner(const std::vector<std::string>& w)
         catch (const nitro::except::exception&) { raised = true; }
         os << std::string("!");
         return "O " + vh::hex(os.str()) + (raised ? " R" : " K");
+    }
+    if (w.size() >= 5 && w[0] == "rel")
+    {
+        std::size_t sep = 4;
+        while (sep < w.size() && w[sep] != "/") sep++;
+        if (sep == w.size()) return "BADCASE";
+        for (std::size_t k = sep + 1; k < w.size(); k++) if (w[k] == "/") return "BADCASE";
+        std::vector<Op> pre, post;
+        if (!parse_ops(w, 4, sep, pre) || !parse_ops(w, sep + 1, w.size(), post)) return "BADCASE";
+        return run_rel(w[1], vh::unhex(w[2]), vh::unhex(w[3]), pre, post);
     }
     if (w.size() >= 2 && w[0] == "seq")
     {
